@@ -264,7 +264,7 @@ impl<S: Fstat + Open + Select + Signals + WaitForSignals> SearchEnv<'_, S> {
         };
         self.env
             .system
-            .fstatat(AT_FDCWD, &path, /* follow symlinks */ true)
+            .fstatat(AT_FDCWD, &path, /* follow symlinks */ false)
             .is_ok()
     }
 
